@@ -147,7 +147,7 @@ def rand_transl(rng, nrhs, with_anode):
 
 
 def rand_grammar(rng, max_nt=4, max_t=3, max_rules_per=3, max_rhs=4, err_rules=0, p_anode=0.6,
-                 costs=(0, 5), sparse_codes=False):
+                 costs=(0, 5), sparse_codes=False, p_empty=0.0, p_unit=0.0):
     nt = rng.randint(1, max_nt)
     t = rng.randint(1, max_t)
     tn = TNAMES[:t]
@@ -164,6 +164,13 @@ def rand_grammar(rng, max_nt=4, max_t=3, max_rules_per=3, max_rhs=4, err_rules=0
     def mk_rule(lhs, allow_err=False):
         ln = rng.choice([0, 1, 1, 2, 2, 2, 3, 3, 4][:2 + max_rhs * 2])
         ln = min(ln, max_rhs)
+        r0 = rng.random()
+        if r0 < p_empty:
+            ln = 0
+        elif r0 < p_empty + p_unit and not allow_err:
+            # unit rule passing its symbol through (or not translating it)
+            sym = rng.choice(nn)
+            return (lhs, [sym], None, 0, rng.choice([[0], [0], [0], None, [NIL]]))
         rhs = []
         for _ in range(ln):
             if rng.random() < 0.5:
@@ -317,3 +324,88 @@ def count_derivations(g, w, big=10 ** 6):
             for x in g.nts:
                 mx = max(mx, c.get((x, i, j), 0))
     return mx
+
+
+def family_grammar(rng, costs=(0, 5)):
+    """Hand-shaped ambiguous families with random translation specifications:
+    split families (several nonterminals in one rule, each with several lengths),
+    shared-subtree families, operator families, nullable families."""
+    fam = rng.choice(['split', 'split', 'shared', 'ops', 'nullable'])
+    nid = [0]
+
+    def an():
+        nid[0] += 1
+        return 'f%d' % nid[0]
+
+    def cst():
+        return rng.randint(*costs)
+
+    def perm_tr(n, k=None):
+        idx = list(range(n))
+        rng.shuffle(idx)
+        k = rng.randint(1, n) if k is None else k
+        tr = idx[:k]
+        if rng.random() < 0.3:
+            tr.insert(rng.randrange(len(tr) + 1), NIL)
+        return tr
+    rules = []
+    if fam == 'split':
+        k = rng.choice([2, 2, 3])
+        xs = NNAMES[1:1 + k]
+        tail = rng.choice([[], ['c'], ['c']])
+        rhs = xs + tail
+        rules.append(('S', rhs, an(), cst(), perm_tr(len(rhs), rng.choice([len(rhs), len(rhs), None]))))
+        for x in xs:
+            style = rng.choice(['anode', 'anode', 'plain', 'pass'])
+            if style == 'anode':
+                rules.append((x, ['a'], an(), cst(), rng.choice([[0], []])))
+                rules.append((x, ['a', 'a'], an(), cst(), rng.choice([[0, 1], [1, 0], [1], []])))
+            elif style == 'plain':
+                rules.append((x, ['a'], None, 0, None))
+                rules.append((x, ['a', 'a'], None, 0, None))
+            else:
+                rules.append((x, ['a'], None, 0, [0]))
+                rules.append((x, ['a', 'a'], None, 0, [rng.randrange(2)]))
+            if rng.random() < 0.3:
+                rules.append((x, [], rng.choice([None, an()]), 0, None))
+        terms = [('a', 97), ('c', 99)]
+    elif fam == 'shared':
+        rules.append(('S', ['P'], None, 0, [0]))
+        rules.append(('S', ['Q'], None, 0, [0]))
+        rules.append(('P', ['A'] + rng.choice([[], ['A']]), an(), cst(), [0]))
+        rules.append(('Q', ['A'], an(), cst(), [0]))
+        rules.append(('A', ['B', 'B'], an(), cst(), perm_tr(2, 2)))
+        rules.append(('B', ['a'], an(), cst(), rng.choice([[], [0]])))
+        rules.append(('B', ['a', 'a'], an(), cst(), rng.choice([[], [0, 1]])))
+        terms = [('a', 97)]
+    elif fam == 'ops':
+        ops = rng.sample(['+', '*', '-'], rng.randint(1, 3))
+        for o in ops:
+            rules.append(('E', ['E', o, 'E'], an(), cst(), rng.choice([[0, 2], [2, 0], [0, 1, 2], [0]])))
+        if rng.random() < 0.5:
+            rules.append(('E', ['(', 'E', ')'], None, 0, [1]))
+        rules.append(('E', ['a'], rng.choice([None, an()]), cst(), [0]))
+        terms = [('a', 97), ('+', 43), ('*', 42), ('-', 45), ('(', 40), (')', 41)]
+    else:
+        rules.append(('S', ['a', 'O'] + rng.choice([[], ['O']]), an(), cst(), perm_tr(2 + 0, 2)))
+        rules.append(('O', ['P'], None, 0, [0]))
+        rules.append(('O', ['b'], an(), cst(), []))
+        rules.append(('P', [], an(), cst(), []))
+        rules.append(('P', ['Q'], None, 0, rng.choice([[0], None])))
+        rules.append(('Q', [], rng.choice([an(), None]), cst(), []))
+        terms = [('a', 97), ('b', 98)]
+    used = {s for r in rules for s in r[1]}
+    terms = [t for t in terms if t[0] in used]
+    return Gram(terms, rules)
+
+
+def family_inputs(rng, g, n=6):
+    """Inputs for a family grammar: random derivations of several lengths."""
+    out = []
+    for _ in range(n * 3):
+        w = rand_sentence(rng, g, maxlen=8, depth=rng.choice([3, 5, 8]))
+        if w is not None and w not in out:
+            out.append(w)
+        if len(out) >= n:
+            break
+    return out
